@@ -13,6 +13,15 @@
 //!           (`Builder::make_parameters` + `Parameters::digest` on a one-protein FASTA with
 //!            `cleave_at = "$"`: the whole protein is one peptide, Position::Full; sorted; first with
 //!            the bounds [lo, hi], then with [-inf, +inf])
+//!   dbdigest <mc min_len max_len cleave:hex restrict c_terminal semi, each `0` | `1 x`> <protein:hex> <max>
+//!            <f32 lo> <f32 hi> <vars> <statics>
+//!        -> panic | ok <n> {<seq:hex> form} <nall> {<seq:hex> form}
+//!           (`Parameters::digest` on a one-protein FASTA digested with a real enzyme, so that N-terminal,
+//!            C-terminal and internal peptides with `[` `]` `^` `$` keys go through the database path too)
+//!   pepdisplay <same arguments as apply>
+//!        -> err:invalid | ok <ntab> {<f32> <text:hex>} <nforms> {form <display:hex>}
+//!           (`Peptide::to_string()` of every form of `apply`, with the `{:+}` text of every mass shown as a table:
+//!            the float printer is data, the structure of `Display for Peptide` is what is compared)
 use super::Info;
 use crate::proto::{Case, Out, Rng, Tier, Toks};
 use sage_core::database::{Builder, EnzymeBuilder};
@@ -24,7 +33,7 @@ use std::collections::HashMap;
 use std::str::FromStr;
 use std::sync::Arc;
 
-pub const OPS: &[&str] = &["modkey", "apply", "dbforms"];
+pub const OPS: &[&str] = &["modkey", "apply", "dbforms", "dbdigest", "pepdisplay"];
 pub const INFO: Info = Info {
     rule: "modkey: every string of length <= 2 (quick) / <= 3 (thorough) over the 12-character alphabet \
            ^ $ [ ] M K A Z B m e-acute '-', all 114 documented keys, every ASCII character alone and after each marker, \
@@ -35,7 +44,7 @@ pub const INFO: Info = Info {
            (^A + A with the same mass, a mass listed twice), variable + static on the same residue, both termini \
            of a length-1 peptide, overlapping static mods, zero masses; exhaustive small scope: all sequences over \
            {A,K} up to length 2 (4 thorough) x 4 positions x 12 variable sets x 6 static sets x max 1..2 (1..3). \
-           long peptides (default on): 60..140 residues and some 255..300, at most 6 candidate sites placed 64/128 apart, at residue 62/63 together with a terminal key, straddling index 64, or sparse at random, max 2..3, through apply and dbforms. dbforms: the same peptides through Parameters::digest with mass bounds placed on / one ulp around the \
+           long peptides (default on): 60..140 residues and some 255..300, at most 6 candidate sites placed 64/128 apart, at residue 62/63 together with a terminal key, straddling index 64, or sparse at random, max 2..3, through apply and dbforms. pepdisplay: Peptide::to_string of every form for the directed apply cases and a deterministic eighth of all others, with the {:+} text of each shown mass as a table. dbdigest: proteins of 4..28 residues digested by Parameters::digest with a real enzyme (KR|P, KR, K, R|P, N-terminal D, N-terminal KR; 0..2 missed cleavages; sometimes semi-enzymatic), variable keys among residues and [ ] ^ $ [X ]X ^X $X, non-overlapping static keys, mass bounds on / one ulp around real form masses; non-trivial = peptides at >= 2 different positions and at least one modified form. dbforms: the same peptides through Parameters::digest with mass bounds placed on / one ulp around the \
            masses of generated forms. non-trivial = at least one modified form generated (apply), bound cuts the \
            form list (dbforms); distinct by request line",
     serial: false,
@@ -135,6 +144,48 @@ fn write_forms(o: &mut Out, forms: &[Peptide]) {
             o.n(x);
         }
     }
+}
+
+/// peptides of a digested protein: `<seq:hex> form`, sorted by (sequence, form)
+fn write_peps(o: &mut Out, forms: &[Peptide]) {
+    let mut toks: Vec<(Vec<u64>, usize)> = forms
+        .iter()
+        .enumerate()
+        .map(|(i, p)| {
+            let mut v: Vec<u64> = vec![p.sequence.len() as u64];
+            v.extend(p.sequence.iter().map(|b| *b as u64));
+            write_form(&mut v, p);
+            (v, i)
+        })
+        .collect();
+    toks.sort();
+    o.n(toks.len());
+    for (_, i) in toks {
+        let p = &forms[i];
+        o.bytes(&p.sequence);
+        let mut v = Vec::new();
+        write_form(&mut v, p);
+        for x in v {
+            o.n(x);
+        }
+    }
+}
+
+fn run_digest(enzyme: &EnzymeBuilder, prot: &str, max: usize, lo: f32, hi: f32, vars: &VarMods, statics: &StaticMods) -> Vec<Peptide> {
+    let builder = Builder {
+        enzyme: Some(enzyme.clone()),
+        peptide_min_mass: Some(lo),
+        peptide_max_mass: Some(hi),
+        static_mods: Some(statics.iter().cloned().collect()),
+        variable_mods: Some(vars.iter().cloned().collect()),
+        max_variable_mods: Some(max),
+        generate_decoys: Some(false),
+        fasta: Some("none".into()),
+        ..Default::default()
+    };
+    let params = builder.make_parameters();
+    let fasta = Fasta::parse(format!(">P1 test\n{}\n", prot), "rev_", false);
+    params.digest(&fasta)
 }
 
 /// the real code: `try_from` + `apply`, mods prepared the way `Builder`/`Parameters::digest` prepare them
@@ -262,6 +313,76 @@ pub fn exec(op: &str, t: &mut Toks) -> Option<String> {
             o.raw("ok");
             write_forms(&mut o, &forms);
             write_forms(&mut o, &all);
+        }
+        "pepdisplay" => {
+            let pos = position(t.usize()?)?;
+            let seq = t.string()?;
+            let max = t.usize()?;
+            let (vars, statics) = read_mods(t)?;
+            match run_apply(pos, &seq, max, &vars, &statics) {
+                Err(()) => {
+                    o.raw("err:invalid");
+                }
+                Ok((_, forms)) => {
+                    let mut shown: Vec<u32> = Vec::new();
+                    for p in &forms {
+                        for m in p.nterm.iter().chain(p.cterm.iter()).chain(p.modifications.iter().filter(|m| **m != 0.0)) {
+                            shown.push(m.to_bits());
+                        }
+                    }
+                    shown.sort();
+                    shown.dedup();
+                    o.raw("ok").n(shown.len());
+                    for b in &shown {
+                        o.n(*b).s(&format!("{:+}", f32::from_bits(*b)));
+                    }
+                    let mut rows: Vec<(Vec<u64>, String)> = forms
+                        .iter()
+                        .map(|p| {
+                            let mut v = Vec::new();
+                            write_form(&mut v, p);
+                            (v, p.to_string())
+                        })
+                        .collect();
+                    rows.sort();
+                    o.n(rows.len());
+                    for (v, d) in rows {
+                        for x in v {
+                            o.n(x);
+                        }
+                        o.s(&d);
+                    }
+                }
+            }
+        }
+        "dbdigest" => {
+            let mc = t.opt(|t| t.usize())?;
+            let min_len = t.opt(|t| t.usize())?;
+            let max_len = t.opt(|t| t.usize())?;
+            let cleave = t.opt(|t| t.string())?;
+            let restrict = t.opt(|t| t.usize())?;
+            let c_terminal = t.opt(|t| t.bool())?;
+            let semi = t.opt(|t| t.bool())?;
+            let prot = t.string()?;
+            let max = t.usize()?;
+            let lo = t.f32()?;
+            let hi = t.f32()?;
+            let (vars, statics) = read_mods(t)?;
+            let enzyme = EnzymeBuilder {
+                missed_cleavages: mc.map(|x| x as u8),
+                min_len,
+                max_len,
+                cleave_at: cleave,
+                restrict: restrict.map(|c| c as u8 as char),
+                c_terminal,
+                semi_enzymatic: semi,
+            };
+            let run = |lo: f32, hi: f32| -> Vec<Peptide> { run_digest(&enzyme, &prot, max, lo, hi, &vars, &statics) };
+            let kept = run(lo, hi);
+            let all = run(f32::NEG_INFINITY, f32::INFINITY);
+            o.raw("ok");
+            write_peps(&mut o, &kept);
+            write_peps(&mut o, &all);
         }
         _ => return None,
     }
@@ -438,7 +559,18 @@ fn emit_apply(emit: &mut dyn FnMut(Case), tag: &'static str, pos: usize, seq: &s
     }
     let valid_seq = seq.bytes().all(|c| ALL_AA.contains(&c));
     let zero = vars.iter().any(|(_, ms)| ms.iter().any(|m| *m == 0.0)) || statics.iter().any(|(_, m)| *m == 0.0);
-    emit(Case::new(req_apply(pos, seq, max, vars, statics))
+    // the display string of the same forms (structure of `Display for Peptide`), for the directed cases and a
+    // deterministic eighth of the others
+    let req = req_apply(pos, seq, max, vars, statics);
+    let h = req.bytes().fold(0u32, |a, b| a.wrapping_mul(31).wrapping_add(b as u32));
+    if tag.ends_with("directed") || h % 8 == 0 {
+        emit(Case::new(req.replacen("apply", "pepdisplay", 1))
+            .tag("display")
+            .tag_if(vars.iter().any(|(k, _)| k == "^" || k == "[") || statics.iter().any(|(k, _)| k == "^" || k == "["), "display:nterm-key")
+            .tag_if(vars.iter().any(|(k, _)| k == "$" || k == "]") || statics.iter().any(|(k, _)| k == "$" || k == "]"), "display:cterm-key")
+            .nontrivial(valid_seq && sh.cands > 0 && max > 0));
+    }
+    emit(Case::new(req)
         .tag(tag)
         .tag_if(!valid_seq, "apply:invalid-sequence")
         .tag_if(seq.is_empty(), "apply:empty-sequence")
@@ -836,6 +968,189 @@ fn emit_db(rng: &mut Rng, emit: &mut dyn FnMut(Case), extra_tag: &'static str, s
     true
 }
 
+// ------------------------------------------------------------------------------ proteins through a real enzyme
+
+fn opt_tok<T: std::fmt::Display>(o: &mut Out, x: Option<T>) {
+    match x {
+        None => { o.n(0); }
+        Some(v) => { o.n(1).n(v); }
+    }
+}
+
+fn req_digest(e: &EnzymeBuilder, prot: &str, max: usize, lo: f32, hi: f32, vars: &VarMods, statics: &StaticMods) -> String {
+    let mut o = Out::new();
+    o.raw("dbdigest");
+    opt_tok(&mut o, e.missed_cleavages);
+    opt_tok(&mut o, e.min_len);
+    opt_tok(&mut o, e.max_len);
+    match &e.cleave_at {
+        None => { o.n(0); }
+        Some(c) => { o.n(1).s(c); }
+    }
+    opt_tok(&mut o, e.restrict.map(|c| c as u32));
+    opt_tok(&mut o, e.c_terminal.map(|b| b as u8));
+    opt_tok(&mut o, e.semi_enzymatic.map(|b| b as u8));
+    o.s(prot).n(max).f32(lo).f32(hi);
+    write_mods(&mut o, vars, statics);
+    o.finish()
+}
+
+fn emit_digest(rng: &mut Rng, emit: &mut dyn FnMut(Case), tag: &'static str, e: &EnzymeBuilder, prot: &str, mut max: usize,
+               vars: &VarMods, statics: &StaticMods) -> bool {
+    for (i, (k, _)) in vars.iter().enumerate() {
+        if vars[..i].iter().any(|(k2, _)| k2 == k) {
+            return false;
+        }
+    }
+    let sh = shape(2, prot, vars, statics);
+    while max > 1 && binom_sum(sh.cands, max) > 120 {
+        max -= 1;
+    }
+    if binom_sum(sh.cands, max.max(1)) > 120 {
+        return false;
+    }
+    let (e2, p2, v2, s2) = (e.clone(), prot.to_string(), vars.clone(), statics.clone());
+    let all = match std::panic::catch_unwind(move || run_digest(&e2, &p2, max, f32::NEG_INFINITY, f32::INFINITY, &v2, &s2)) {
+        Ok(a) => a,
+        Err(_) => {
+            emit(Case::new(req_digest(e, prot, max, 0.0, 1.0e6, vars, statics)).tag(tag).tag("dig:panic").nontrivial(false));
+            return true;
+        }
+    };
+    let masses: Vec<f32> = all.iter().map(|p| p.monoisotopic).collect();
+    let pickm = |rng: &mut Rng| -> f32 { if masses.is_empty() { 500.0 } else { *rng.pick(&masses) } };
+    let (lo, hi): (f32, f32) = match rng.below(7) {
+        0 | 1 => (0.0, 1.0e6),
+        2 => { let m = pickm(rng); (m, 1.0e6) }
+        3 => { let m = pickm(rng); (next_up(m), 1.0e6) }
+        4 => { let m = pickm(rng); (0.0, m) }
+        5 => { let m = pickm(rng); (0.0, next_down(m)) }
+        _ => { let a = pickm(rng); let b = pickm(rng); (a.min(b), a.max(b)) }
+    };
+    let has = |pos: Position| all.iter().any(|p| p.position == pos);
+    let modified = |p: &Peptide| p.nterm.is_some() || p.cterm.is_some() || p.modifications.iter().any(|m| *m != 0.0);
+    let term_mod = |pos: Position| all.iter().any(|p| p.position == pos && (p.nterm.is_some() || p.cterm.is_some()));
+    let prot_keys = vars.iter().any(|(k, _)| k.starts_with('[') || k.starts_with(']'))
+        || statics.iter().any(|(k, _)| k.starts_with('[') || k.starts_with(']'));
+    let npos = [Position::Nterm, Position::Cterm, Position::Internal, Position::Full].iter().filter(|p| has(**p)).count();
+    emit(Case::new(req_digest(e, prot, max, lo, hi, vars, statics))
+        .tag(tag)
+        .tag_if(has(Position::Nterm), "dig:has-nterm-peptide")
+        .tag_if(has(Position::Cterm), "dig:has-cterm-peptide")
+        .tag_if(has(Position::Internal), "dig:has-internal-peptide")
+        .tag_if(has(Position::Full), "dig:has-full-peptide")
+        .tag_if(prot_keys, "dig:protein-terminal-keys")
+        .tag_if(term_mod(Position::Nterm), "dig:nterm-peptide-terminally-modified")
+        .tag_if(term_mod(Position::Cterm), "dig:cterm-peptide-terminally-modified")
+        .tag_if(term_mod(Position::Internal), "dig:internal-peptide-terminally-modified")
+        .tag_if(e.semi_enzymatic == Some(true), "dig:semi")
+        .tag_if(e.missed_cleavages.unwrap_or(0) > 0, "dig:missed-cleavages")
+        .nontrivial(npos >= 2 && all.iter().any(modified)));
+    true
+}
+
+fn enzyme(cleave: &str, restrict: Option<char>, c_terminal: bool, mc: u8, min_len: usize, max_len: usize, semi: bool) -> EnzymeBuilder {
+    EnzymeBuilder {
+        missed_cleavages: Some(mc),
+        min_len: Some(min_len),
+        max_len: Some(max_len),
+        cleave_at: Some(cleave.into()),
+        restrict,
+        c_terminal: Some(c_terminal),
+        semi_enzymatic: Some(semi),
+    }
+}
+
+fn gen_digest(rng: &mut Rng, tier: Tier, emit: &mut dyn FnMut(Case)) {
+    let e: StaticMods = vec![];
+    // directed: every position, every kind of terminal key
+    let tryp = |mc: u8| enzyme("KR", Some('P'), true, mc, 1, 40, false);
+    for mc in 0..=2u8 {
+        for max in [1usize, 2] {
+            emit_digest(rng, emit, "dig:directed", &tryp(mc), "MAAKCCMKGGR", max,
+                &vm(&[("[", &[42.010565]), ("]", &[-17.026548]), ("M", &[15.9949])]), &sm(&[("C", 57.021465)]));
+            emit_digest(rng, emit, "dig:directed", &tryp(mc), "MAAKCCMKGGR", max,
+                &vm(&[("^", &[42.010565]), ("$", &[-17.026548])]), &sm(&[("K", 8.0)]));
+            emit_digest(rng, emit, "dig:directed", &tryp(mc), "MAAKMCMKMGR", max,
+                &vm(&[("[M", &[1.0]), ("]R", &[2.0]), ("^M", &[4.0]), ("$K", &[8.0])]), &e);
+            emit_digest(rng, emit, "dig:directed", &tryp(mc), "MAAKMCMKMGR", max,
+                &vm(&[("M", &[15.9949])]), &sm(&[("[", 42.010565), ("$", 3.0)]));
+            emit_digest(rng, emit, "dig:directed", &tryp(mc), "MAAKMCMKMGR", max,
+                &vm(&[("K", &[8.0])]), &sm(&[("]", 1.0), ("^", 229.16293), ("C", 57.021465)]));
+            // the same peptide at the protein N-terminus and inside / at the C-terminus
+            emit_digest(rng, emit, "dig:directed", &tryp(mc), "AAKGGKAAK", max,
+                &vm(&[("[", &[42.010565]), ("]", &[-17.026548])]), &e);
+            emit_digest(rng, emit, "dig:directed", &tryp(mc), "GGKAAKGGK", max,
+                &vm(&[("[", &[42.010565]), ("]", &[-17.026548]), ("^G", &[1.0])]), &e);
+        }
+    }
+    emit_digest(rng, emit, "dig:directed", &enzyme("D", None, false, 1, 1, 40, false), "MADCKDMMD", 2,
+        &vm(&[("[", &[42.010565]), ("]", &[-17.026548]), ("M", &[15.9949])]), &sm(&[("C", 57.021465)]));
+    emit_digest(rng, emit, "dig:directed", &enzyme("KR", None, true, 0, 1, 40, true), "MAKCR", 2,
+        &vm(&[("[", &[42.010565]), ("]", &[-17.026548]), ("^", &[1.0])]), &sm(&[("C", 57.021465)]));
+    emit_digest(rng, emit, "dig:directed", &enzyme("$", None, true, 0, 1, 40, false), "MAKCR", 2,
+        &vm(&[("[", &[42.010565]), ("]", &[-17.026548])]), &e);
+    // length window that removes every peptide: Parameters::digest panics (outside the property)
+    emit_digest(rng, emit, "dig:directed", &enzyme("KR", None, true, 0, 30, 40, false), "MAKCR", 1, &vm(&[("M", &[1.0])]), &e);
+
+    let n = if tier == Tier::Quick { 300 } else { 12000 };
+    let enzymes: &[(&str, Option<char>, bool)] = &[
+        ("KR", Some('P'), true), ("KR", None, true), ("K", None, true), ("R", Some('P'), true), ("D", None, false), ("KR", None, false),
+    ];
+    let mut done = 0;
+    let mut attempts = 0;
+    while done < n && attempts < 20 * n {
+        attempts += 1;
+        let semi = rng.chance(1, 8);
+        let len = if semi { 4 + rng.below(8) } else { 6 + rng.below(23) };
+        let alpha: &[u8] = b"KKRRDPMMCCSAAGG";
+        let prot: String = (0..len).map(|_| *rng.pick(alpha) as char).collect();
+        let (cl, re, ct) = *rng.pick(enzymes);
+        let mc = rng.below(3) as u8;
+        let min_len = 1 + rng.below(3);
+        let max_len = 5 + rng.below(26);
+        let ez = enzyme(cl, re, ct, mc, min_len, max_len, semi);
+        let b = prot.as_bytes();
+        let first = b[0] as char;
+        let last = b[b.len() - 1] as char;
+        let mut vars: VarMods = Vec::new();
+        let nv = 1 + rng.below(3);
+        for _ in 0..nv {
+            let k: String = match rng.below(12) {
+                0..=3 => (*rng.pick(b"MCSKAD") as char).to_string(),
+                4 => "[".into(),
+                5 => "]".into(),
+                6 => "^".into(),
+                7 => "$".into(),
+                8 => format!("[{}", first),
+                9 => format!("]{}", last),
+                10 => format!("^{}", *rng.pick(b"MCKGA") as char),
+                _ => format!("${}", *rng.pick(b"KRD") as char),
+            };
+            if vars.iter().any(|(k2, _)| *k2 == k) {
+                continue;
+            }
+            let mut ms = vec![mass(rng)];
+            if rng.chance(1, 5) {
+                ms.push(mass(rng));
+            }
+            vars.push((k, ms));
+        }
+        // static mods that cannot overlap: residue keys (distinct letters) and at most one terminal marker
+        let mut statics: StaticMods = Vec::new();
+        if rng.chance(1, 2) {
+            statics.push(((*rng.pick(b"CMKS") as char).to_string(), mass(rng)));
+        }
+        if rng.chance(1, 3) {
+            statics.push((rng.pick(&["^", "$", "[", "]"]).to_string(), mass(rng)));
+        }
+        let max = *rng.pick(&[1usize, 2, 2, 3]);
+        if emit_digest(rng, emit, "dig:random", &ez, &prot, max, &vars, &statics) {
+            done += 1;
+        }
+    }
+}
+
 pub fn gen(rng: &mut Rng, tier: Tier, emit: &mut dyn FnMut(Case)) {
     gen_modkey(tier, emit);
     gen_directed(emit);
@@ -843,4 +1158,5 @@ pub fn gen(rng: &mut Rng, tier: Tier, emit: &mut dyn FnMut(Case)) {
     gen_random(rng, tier, emit);
     gen_db(rng, tier, emit);
     gen_long(rng, tier, emit);
+    gen_digest(rng, tier, emit);
 }
